@@ -119,6 +119,8 @@ def run_shard(desc, env):
     cases = ec.build_cases(rnd, env.tier, nctx, per, big=(env.tier != 'quick'), mutants=0.0)
     if desc['i'] == 0:
         cases = ec.inlining_cases() + cases
+    if desc['i'] == 1:
+        cases = ec.lazy_sharing_cases() + cases
     for cs, cr in env.execute(cases, chunk=12):
         judge(res, cs, cr)
     return res
